@@ -144,3 +144,30 @@ def replay_wire(case):
 
 def plan(tier):
     return [("lookup", 4), ("wire", 12)]
+
+
+# ---------------------------------------------------------------- the entry that authorised a transfer stays the one that applies
+def check_window(ctx, case):
+    """Commands sent between the 150 and the data connection (CWD into a subtree governed by another permission entry,
+    USER ...) must not change which location - hence which permission entry - a transfer operates under.  Shares the
+    scenario with C02's `window` part (tree with an unreadable / unwritable /vault next to a public /pub)."""
+    from checks import c02
+    try:
+        c02.check_window(ctx, case)
+    except Violation as v:
+        raise Violation(v.sig.replace("C02/window/", "C04/window/"), v.detail)
+
+
+def part_window(ctx):
+    from checks import c02
+    n = 150 if ctx.tier == "quick" else 4000
+    hyp_run(ctx, c02.WINDOW, lambda c: check_window(ctx, c), n, name="window")
+
+
+def replay_window(case):
+    from vlib.runner import Ctx
+    check_window(Ctx(PROPERTY, "window", "quick", 0, 0, 1), tuple(case))
+
+
+def plan(tier):  # noqa: F811
+    return [("lookup", 4), ("wire", 10), ("window", 2)]
